@@ -78,19 +78,27 @@ class HostPool(object):
         assert not self._closed
 
         yield from self._condition.acquire()
+        connection = None
 
-        while True:
-            if self.ready:
-                connection = self.ready.pop()
-                break
-            elif len(self.busy) < self.max_connections:
-                connection = self._connection_factory()
-                break
-            else:
-                yield from self._condition.wait()
+        try:
+            while True:
+                if self.ready:
+                    connection = self.ready.pop()
+                    break
+                elif len(self.busy) < self.max_connections:
+                    connection = self._connection_factory()
+                    break
+                else:
+                    yield from self._condition.wait()
 
-        self.busy.add(connection)
-        self._condition.release()
+            self.busy.add(connection)
+        finally:
+            if connection is None:
+                # Cancelled while waiting: pass any wake-up on to the next
+                # waiter instead of swallowing it.
+                self._condition.notify()
+
+            self._condition.release()
 
         return connection
 
@@ -197,16 +205,17 @@ class ConnectionPool(object):
 
         _logger.debug('Check out %s', key)
 
-        connection = yield from host_pool.acquire()
-        connection.key = key
+        try:
+            connection = yield from host_pool.acquire()
+            connection.key = key
+        finally:
+            # Runs without awaiting so a cancelled waiter is always uncounted.
+            self._host_pool_waiters[key] -= 1
 
         # TODO: Verify this assert is always true
         # assert host_pool.count() <= host_pool.max_connections
         # assert key in self._host_pools
         # assert self._host_pools[key] == host_pool
-
-        with (yield from self._host_pools_lock):
-            self._host_pool_waiters[key] -= 1
 
         return connection
 
